@@ -153,6 +153,78 @@ def script_pubkey(version, program):
     return bytes([0 if version == 0 else 0x50 + version, len(program)]) + bytes(program)
 
 
+# ------------------------------------------------- bc32 (BCR-2020-004), CBOR, UR v1
+# bc32 = Bech32 without a human readable part: the checksum is computed over the single value 0
+# followed by the data, and the final constant is 0x3fffffff instead of 1.
+
+BC32_CONST = 0x3FFFFFFF
+
+
+def bc32_encode(data8):
+    d5 = to5(data8)
+    r = _poly_mod([0] + d5 + [0] * 6) ^ BC32_CONST
+    chk = [(r >> (5 * (5 - i))) & 31 for i in range(6)]
+    return "".join(CHARSET[d] for d in d5 + chk)
+
+
+def bc32_decode(text):
+    """bytes or None"""
+    if text.lower() != text and text.upper() != text:
+        return None
+    vals = []
+    for c in text.lower():
+        i = CHARSET.find(c)
+        if i < 0:
+            return None
+        vals.append(i)
+    if len(vals) < 6 or _poly_mod([0] + vals) != BC32_CONST:
+        return None
+    return to8(vals[:-6])
+
+
+def cbor_bytes(data):
+    """RFC 8949 section 3.1, major type 2 (byte string), preferred (shortest) length encoding"""
+    n = len(data)
+    if n <= 23:
+        head = bytes([0x40 | n])
+    elif n < 1 << 8:
+        head = bytes([0x58, n])
+    elif n < 1 << 16:
+        head = bytes([0x59]) + n.to_bytes(2, "big")
+    elif n < 1 << 32:
+        head = bytes([0x5A]) + n.to_bytes(4, "big")
+    else:
+        head = bytes([0x5B]) + n.to_bytes(8, "big")
+    return head + bytes(data)
+
+
+def cbor_bytes_decode(blob):
+    """inverse of cbor_bytes: (data, rest) or None"""
+    if not blob or blob[0] >> 5 != 2:
+        return None
+    ai = blob[0] & 31
+    if ai <= 23:
+        n, off = ai, 1
+    elif ai in (24, 25, 26, 27):
+        w = 1 << (ai - 24)
+        if len(blob) < 1 + w:
+            return None
+        n, off = int.from_bytes(blob[1:1 + w], "big"), 1 + w
+    else:
+        return None
+    if len(blob) < off + n:
+        return None
+    return blob[off:off + n], blob[off + n:]
+
+
+def ur_v1(payload):
+    """(bc32 of the CBOR byte string, bc32 of its SHA-256) as used by UR version 1 'ur:bytes/...'"""
+    import hashlib
+
+    c = cbor_bytes(payload)
+    return bc32_encode(c), bc32_encode(hashlib.sha256(c).digest())
+
+
 # ----------------------------------------------------------------------- self-test
 
 _VALID_BECH32 = [
@@ -287,6 +359,26 @@ def selftest():
         assert len(b) == n and to8(to5(b)) == b
     assert to5(b"\x00\x01\x02") == [0, 0, 0, 16, 4]
     assert to8([31]) is None and to8([0, 1]) is None and to8([0, 0]) == b"\x00"
+    # bc32: BCR-2020-004 example and the vector pinned by the repository's test-suite
+    assert bc32_encode(b"Hello world") == "fpjkcmr0ypmk7unvvsh4ra4j"
+    assert bc32_encode(b"hello world") == "dpjkcmr0ypmk7unvvsrvvse8"
+    assert bc32_decode("fpjkcmr0ypmk7unvvsh4ra4j") == b"Hello world"
+    assert bc32_decode("FPJKCMR0YPMK7UNVVSH4RA4J") == b"Hello world"
+    assert bc32_decode("fpjkcmr0ypmk7unvvsh4ra4q") is None
+    assert bc32_decode("Fpjkcmr0ypmk7unvvsh4ra4j") is None
+    # UR v1 vectors (specter-desktop, reproduced in the repository's test-suite)
+    assert ur_v1(b"foo") == ("gdnx7mc0p7099",
+                             "j7snj9l0tttmp4c0d9d9mdz0frkac8s6fz4cn8erca3nxz0cnjuq7fv7lv")
+    assert ur_v1(bytes.fromhex("69a69a")) == (
+        "gd56dxsyew2w5", "ysypyck5etagxt08hzn6vcnwam3lgupp0uhcs7n8pg0wmen32p3qate5eg")
+    # CBOR byte-string heads (RFC 8949 appendix A: h'' = 0x40, h'01020304' = 0x4401020304)
+    assert cbor_bytes(b"") == b"\x40" and cbor_bytes(b"\x01\x02\x03\x04").hex() == "4401020304"
+    for n, head in ((23, "57"), (24, "5818"), (255, "58ff"), (256, "590100"), (65535, "59ffff"),
+                    (65536, "5a00010000")):
+        blob = cbor_bytes(bytes(n))
+        assert blob[: len(head) // 2].hex() == head and len(blob) == n + len(head) // 2, n
+        assert cbor_bytes_decode(blob + b"x") == (bytes(n), b"x")
+    assert cbor_bytes_decode(b"\x60") is None and cbor_bytes_decode(b"\x58") is None
 
 
 _done = False
